@@ -105,6 +105,12 @@ impl World {
                 if format!("{}", r).as_bytes() != &text[..] {
                     self.notes.push("ReprCStr Display differs from as_ref".into());
                 }
+                // a second borrow of the same text: equal, same hash; Debug as the text's Debug
+                let c2 = std::ffi::CString::new(text.clone()).unwrap();
+                let r2 = ReprCStr::from(c2.as_c_str());
+                if !(r == r2) || hash_of(&r) != hash_of(&r2) {
+                    self.notes.push("two ReprCStr of the same text are unequal or hash differently".into());
+                }
                 self.obs = json!({"kind":"cstr","text":jbytes(&text),"flag":false});
             }
             _ => {
